@@ -32,7 +32,7 @@ def try_replay(prop, harness, record):
 
 # Replayers that do not look at the solver's concrete values (they replay the scenario class natively): extracting the values
 # costs a second solver run per failing harness, so it is skipped for them.
-NO_VALUES = ("c02_", "c03_", "c09_", "c12_", "c13_", "c20_", "c21_two_event_loops", "c21_step_", "c25_release_on_drop", "c26_first_lookups",
+NO_VALUES = ("c26_first_mut_lookups", "c02_", "c03_", "c09_", "c12_", "c13_", "c20_", "c21_two_event_loops", "c21_step_", "c25_release_on_drop", "c26_first_lookups",
              "c26_sequential", "c19_history")
 
 
@@ -733,7 +733,7 @@ def _replay_c26_names(prop, harness, rec):
 
 @replayer("c26_")
 def _replay_c26(prop, harness, rec):
-    r = run_case(["beans_race", 600, 8], 180)
+    r = run_case(["beans_race", 600, 8] + (["mut"] if "_mut_" in harness else []), 180)
     if "error" in r:
         return {"status": "unavailable", "detail": r["error"]}
     o = r["out"]
